@@ -324,8 +324,14 @@ def run_job(job, work, tier, log):
     for o in obligations:
         if o["status"] == "FAILURE" and o["name"] and (".unwind." in o["name"] or "recursion" in o["name"]) and not job.unwind_ok:
             raise ToolProblem("unwinding assertion %s failed in %s (bound too small: undecided)" % (o["name"], job.name))
-    # 2. sentinel (must fail) and cover (must be satisfiable)
+    # 2. sentinel (must fail) and cover (must be satisfiable).  Skipped when an obligation already failed: a failing
+    #    obligation is reachable by construction, and a change that breaks the property may well make a cover point
+    #    unreachable -- that must be reported as the violation it is, not as "undecided".
     info["sentinel"] = None
+    info["cover"] = None
+    if any(o["status"] == "FAILURE" for o in obligations):
+        info["wall_s"] = round(time.time() - t0, 2)
+        return info
     if job.sentinel:
         bs = build(["-D" + job.sentinel], "sent")
         rs, s2 = cbmc(bs, [], "sent")
